@@ -185,6 +185,9 @@ func (ex *Exec) intrinsic(fr *Frame, fn *ssa.Function, args []Value, env []Value
 				return res, FF, true
 			}
 		}
+		if r, ok := mapIteConst(x, func(c *T) *T { return RF(math.Sqrt(ratToFloat(c.r))) }, 0); ok {
+			return r, FF, true
+		}
 		unsup("math.Sqrt of a symbolic real")
 	case "math.Abs":
 		x := args[0].(*T)
@@ -336,4 +339,19 @@ func (ex *Exec) sortSlice(fr *Frame, args []Value, g *T, name string) {
 			ex.writeSlice(fr, s, I(int64(j-1)), a, cont)
 		}
 	}
+}
+
+// mapIteConst applies f to the constant leaves of an ite-tree (fails on any other leaf).
+func mapIteConst(t *T, f func(*T) *T, depth int) (*T, bool) {
+	if isC(t) {
+		return f(t), true
+	}
+	if t.op == "ite" && depth < 64 {
+		a, ok1 := mapIteConst(t.a[1], f, depth+1)
+		b, ok2 := mapIteConst(t.a[2], f, depth+1)
+		if ok1 && ok2 {
+			return Ite(t.a[0], a, b), true
+		}
+	}
+	return nil, false
 }
